@@ -317,6 +317,29 @@ def run_sharded(exe, command, lines, wd, tag, shards=16, timeout=3000, extra=Non
         f.close()
         rc, err = _retry_hangs(argv, path, outp, p.returncode, err, e, timeout)
         got = open(outp).read().splitlines()
+        # the IMPLEMENTATION's process dying on a case (abort, stack overflow, a signal) is a result of that case, not
+        # a tooling failure: the case is recorded as `abort(<status>)` and the rest of the shard is run in a new process
+        part = open(path).read().splitlines()
+        tries = 0
+        while rc != 0 and "dharness" in os.path.basename(exe) and len(got) < k:
+            tries += 1
+            got.append(f"abort({rc})")
+            if tries >= 12:
+                # the process keeps dying: the remaining cases of the shard are not run
+                got += [f"abort(not run: the process died on {tries} cases of this shard)"] * (k - len(got))
+                rc = 0
+                break
+            rest = part[len(got):]
+            if not rest:
+                rc = 0
+                break
+            rpath = path + f".resume{tries}"
+            write_lines(rpath, rest)
+            with open(rpath + ".out", "w") as fo:
+                pr = subprocess.run([exe, command, rpath] + (extra or []), stdout=fo, stderr=subprocess.PIPE, env=e, text=True,
+                                    timeout=timeout)
+            rc, err = _retry_hangs([exe, command, rpath] + (extra or []), rpath, rpath + ".out", pr.returncode, pr.stderr, e, timeout)
+            got += open(rpath + ".out").read().splitlines()
         if rc != 0 or len(got) != k:
             raise Undecided(f"{exe} {command}: exit {rc}, {len(got)}/{k} lines\n{(err or '')[-2000:]}")
         out.extend(got)
